@@ -1,5 +1,6 @@
 import WhVerif.Util.Proto
 import WhVerif.Model.C11
+import WhVerif.Model.C11Run
 import WhVerif.Spec.C11
 namespace WhVerif.Driver.C11
 open Lean WhVerif.Proto WhVerif.C11
@@ -20,6 +21,51 @@ def parseTable (j : Json) : Option (List Call) := do (← asArr? j).mapM parseCa
 
 def getHaps? (j : Json) (k : String) : Option (List Hap) :=
   match j.getObjVal? k with | .ok v => natListList? v | _ => none
+
+def pairJson (r : PairResult) : Json :=
+  Json.mkObj [("intersection_blocks", ofNat r.intersectionBlocks), ("covered_variants", ofNat r.coveredVariants),
+              ("assessed_pairs", ofNat r.assessedPairs), ("total", errJson r.total),
+              ("largest_len", ofNat r.largestLen), ("largest", errJson r.largest),
+              ("bed", ofPairs r.bed), ("longest_positions", ofNatList r.longestPositions),
+              ("longest_agreement", ofNatList r.longestAgreement),
+              ("per_block", ofList (fun b => Json.arr #[ofNatList b.1, errJson b.2.1, ofNatList b.2.2]) r.perBlock)]
+
+def strList? (j : Json) : Option (List String) := do (← asArr? j).mapM asStr?
+
+/-- `[gt (list of nat|null), phased, ps (nat|null)]` -/
+def parseRawCall (j : Json) : Option RawCall := do
+  match ← asArr? j with
+  | [gt, ph, ps] =>
+    let g ← (← asArr? gt).mapM fun a => if a.isNull then some none else (asNat? a).map some
+    let p ← if ps.isNull then some none else (asNat? ps).map some
+    some ⟨g, ← asBool? ph, p⟩
+  | _ => none
+
+/-- `[chrom, pos, ref, alts, calls]` -/
+def parseRec (j : Json) : Option Rec := do
+  match ← asArr? j with
+  | [c, p, r, a, cs] => some ⟨← asStr? c, ← asNat? p, ← asStr? r, ← strList? a, ← (← asArr? cs).mapM parseRawCall⟩
+  | _ => none
+
+def parseFile (j : Json) : Option VFile := do
+  let s ← (getObj? j "samples").bind strList?
+  let r ← (getList? j "records").bind (·.mapM parseRec)
+  some ⟨s, r⟩
+
+def runErrorName : RunError → String
+  | .multiSampleIgnore => "multi-sample-ignore" | .sampleNotFound => "sample-not-found"
+  | .noCommonSample => "no-common-sample" | .ambiguousSample => "ambiguous-sample" | .noSample => "no-sample"
+  | .ploidy => "ploidy" | .notSorted => "not-sorted" | .noCommonChromosome => "no-common-chromosome"
+
+def chromJson (c : ChromOut) : Json :=
+  Json.mkObj [("chrom", Json.str c.chrom), ("died", Json.bool c.died),
+    ("pairs", ofList (fun (p : PairOut) => Json.mkObj [("i", ofNat p.i), ("j", ofNat p.j), ("sample", Json.str p.sampleName),
+        ("het0", ofNat p.hetVariants0), ("result", match p.result with | some r => pairJson r | none => Json.null)]) c.pairs),
+    ("bed", ofList (fun (b : Nat × Nat × Nat × Nat) => ofNatList [b.1, b.2.1, b.2.2.1, b.2.2.2]) c.bed),
+    ("multiway", match c.multiway with
+      | some (names, total, hist) => Json.mkObj [("names", ofList Json.str names), ("total", ofNat total),
+          ("hist", ofList (fun (kc : Hap × Nat) => Json.arr #[ofNatList kc.1, ofNat kc.2]) hist)]
+      | none => Json.null)]
 
 def flag (j : Json) (k : String) : Bool := (getBool? j k).getD false
 
@@ -98,24 +144,37 @@ def handle (op : String) (j : Json) : Option Json :=
   else if op == "c11.pair" then
     match getNat? j "ploidy", (getObj? j "t0").bind parseTable, (getObj? j "t1").bind parseTable with
     | some p, some t0, some t1 =>
-      match comparePair (flag j "fixA") (flag j "fixB") (flag j "fix3") p t0 t1 with
+      match comparePair (flag j "fixA") (flag j "fixB") (flag j "fix3") (flag j "fix45") (flag j "fix46") p t0 t1 with
       | none => some (Json.str "error")
       | some r =>
-        some (Json.mkObj [("intersection_blocks", ofNat r.intersectionBlocks), ("covered_variants", ofNat r.coveredVariants),
-                          ("assessed_pairs", ofNat r.assessedPairs), ("total", errJson r.total),
-                          ("largest_len", ofNat r.largestLen), ("largest", errJson r.largest),
-                          ("bed", ofPairs r.bed), ("longest_positions", ofNatList r.longestPositions),
-                          ("longest_agreement", ofNatList r.longestAgreement),
-                          ("per_block", ofList (fun b => Json.arr #[ofNatList b.1, errJson b.2.1, ofNatList b.2.2]) r.perBlock)])
+        some (pairJson r)
     | _, _, _ => some badInput
   else if op == "c11.multiway" then
     match (getList? j "tables").bind (·.mapM parseTable) with
     | some tables =>
-      match compareMultiway (flag j "fixC") tables with
+      match compareMultiway (flag j "fixC") (flag j "fix46") tables with
       | none => some (Json.str "error")
       | some (total, hist) =>
         some (Json.mkObj [("total", ofNat total),
                           ("hist", ofList (fun kc => Json.arr #[ofNatList kc.1, ofNat kc.2]) hist)])
     | none => some badInput
+  else if op == "c11.relabel" then
+    -- the current code on the block whose haplotypes are listed in the orders `tau` / `ups` (Props.C11.poly_perm_invariant)
+    match getHaps? j "ph0", getHaps? j "ph1", getNatList? j "tau", getNatList? j "ups" with
+    | some ph0, some ph1, some tau, some ups =>
+      let q0 := relabelHaps tau ph0
+      let q1 := relabelHaps ups ph1
+      some (Json.mkObj [("ph0", ofList ofNatList q0), ("ph1", ofList ofNatList q1),
+                        ("block", match compareBlock true true q0 q1 with | some e => errJson e | none => Json.str "error"),
+                        ("orig", match compareBlock true true ph0 ph1 with | some e => errJson e | none => Json.str "error")])
+    | _, _, _, _ => some badInput
+  else if op == "c11.run" then
+    match getNat? j "ploidy", getBool? j "ignore", getBool? j "only_snvs", (getList? j "files").bind (·.mapM parseFile) with
+    | some p, some ig, some os, some files =>
+      let o : Opts := ⟨p, getStr? j "sample", ig, os⟩
+      match runCompare (flag j "fix3") (flag j "fix45") (flag j "fix46") o files with
+      | .error e => some (Json.mkObj [("error", Json.str (runErrorName e))])
+      | .ok cs => some (Json.mkObj [("chroms", ofList chromJson cs)])
+    | _, _, _, _ => some badInput
   else none
 end WhVerif.Driver.C11
